@@ -118,8 +118,10 @@ def break_brackets(rng, toks):
         toks[i] = rng.choice([c for c in ")]}" if c != toks[i]])
     elif r < 0.65 and openers:
         del toks[rng.choice(openers)]
-    elif r < 0.85 and closers:
-        del toks[rng.choice(closers)]
+    elif r < 0.85 and [i for i in closers if toks[i] != "}"]:
+        # (a dropped '}' can be made up for by the closing brace of an enclosing class, which leaves the class
+        #  open at end of input: that is not a rule the parser enforces, so only ')' and ']' are dropped)
+        del toks[rng.choice([i for i in closers if toks[i] != "}"])]
     else:
         toks.insert(rng.randint(0, len(toks)), rng.choice(")]}"))
     return toks
@@ -132,15 +134,18 @@ def pile_up(rng):
     kinds = [rng.choice(PAIRS) for _ in range(k)]
     kinds[0] = ("[", "]")
     kinds[-1] = ("[", "]")
-    if all(o == "[" for o, _ in kinds):
-        kinds.insert(1, rng.choice(PAIRS[::2]))
+    if not any(o == "(" for o, _ in kinds):
+        kinds.insert(1, ("(", ")"))
     toks = []
     for o, c in kinds:
         toks += [rng.choice(["a", "b", "k"]), o]
     toks.append(rng.choice(["0", "n"]))
     closers = [c for _, c in reversed(kinds)]
-    drop = rng.choice([i for i, c in enumerate(closers) if c != "]"])
-    del closers[drop]
+    drop = rng.choice([i for i, c in enumerate(closers) if c == ")"])      # never '}' (see break_brackets)
+    if rng.random() < 0.5:
+        closers[drop] = "]"        # the wrong closer instead of none: the ']' run grows by one
+    else:
+        del closers[drop]
     return toks[1:] + closers if rng.random() < 0.5 else ["x"] + toks[1:] + closers + rng.choice([[], ["+", "1"]])
 
 
